@@ -68,6 +68,8 @@ class Ctx:
         self._explicit = {}
         self.small_hints = []
         self.divmod_cache = {}
+        self.sqrt_terms = {}
+        self.sum_tags = {}
         self.lemma_obligations = {}
         self.ghost = {}
         self._leaf_seen = {}
@@ -144,6 +146,7 @@ class Ctx:
             len(self.universals),
             dict(self._patterns),
             dict(self.divmod_cache),
+            dict(self.sqrt_terms),
         )
 
     def pop_goal_scope(self, snap):
@@ -153,6 +156,7 @@ class Ctx:
         del self.assumptions[na:]
         del self.universals[nu:]
         self.divmod_cache = snap[11]
+        self.sqrt_terms = snap[12]
         self._pool_version += 1
 
     def _cur_depth(self):
@@ -1063,7 +1067,41 @@ def spec_sqrt(a):
     f = uf("sqrt", 1)
     r = f(x)
     c.assume(z3.Implies(x >= 0, z3.And(r >= 0, r * r == x)))
-    c.used_axioms.add("sqrt: x>=0 => sqrt(x)>=0 and sqrt(x)^2 = x")
+    # monotonicity, instantiated pairwise at the sqrt terms that occur on this path
+    key = x.get_id()
+    if key not in c.sqrt_terms:
+        for (ox, orr) in c.sqrt_terms.values():
+            c.assume(z3.Implies(z3.And(ox >= 0, x >= 0), z3.And((ox <= x) == (orr <= r), (ox == x) == (orr == r))))
+        c.sqrt_terms[key] = (x, r)
+    c.used_axioms.add("sqrt: x>=0 => sqrt(x)>=0 and sqrt(x)^2 = x; sqrt is strictly increasing on x>=0")
+    return SymNum(r, "real")
+
+
+def sqdist(p, q, define=False):
+    """Squared Euclidean distance between two points (tuples of V).
+
+    Symbolically an OPAQUE spec function sqd(p, q) with the facts sqd >= 0 and p == q => sqd == 0,
+    so that nearest-neighbour reasoning stays linear; `define=True` additionally states the
+    defining polynomial for these particular arguments (used where geometry is needed)."""
+    p = [_numeric(v) for v in p]
+    q = [_numeric(v) for v in q]
+    if not any(is_sym(v) for v in p + q):
+        return sum((a - b) * (a - b) for a, b in zip(p, q))
+    c = ctx()
+    args = [to_z3(v, "real") for v in p + q]
+    f = uf("sqd%d" % len(p), len(args))
+    r = f(*args)
+    same = z3.And(*[to_z3(a, "real") == to_z3(b, "real") for a, b in zip(p, q)])
+    c.assume(z3.And(r >= 0, z3.Implies(same, r == 0)))
+    # symmetry
+    r2 = f(*([to_z3(v, "real") for v in q + p]))
+    c.assume(r == r2)
+    if define:
+        poly = 0
+        for a, b in zip(p, q):
+            poly = poly + (a - b) * (a - b)
+        c.assume(SymNum(r, "real") == poly)
+    c.used_axioms.add("sqd(p,q) (squared Euclidean distance) is opaque: sqd >= 0, sqd(p,p) = 0, symmetric; defining polynomial stated only where geometry is needed")
     return SymNum(r, "real")
 
 
